@@ -571,27 +571,47 @@ fn c14_case(seed: u64, k: usize, out: &mut CaseOut) -> Vec<Violation> {
                         break;
                     }
                     let (a, b) = (*rng.pick(&tl), *rng.pick(&tl));
-                    let (stmt, refuse): (String, Option<bool>) = match rng.below(4) {
+                    let mut batch: Vec<(String, Option<bool>)> = Vec::new();
+                    match rng.below(5) {
                         0 | 1 => {
                             if t_rels.contains(&(a, b)) {
                                 continue;
                             }
                             t_rels.push((a, b));
-                            (format!("MATCH (a:N {{uid: {a}}}), (b:N {{uid: {b}}}) CREATE (a)-[:R]->(b)"), None)
+                            batch.push((format!("MATCH (a:N {{uid: {a}}}), (b:N {{uid: {b}}}) CREATE (a)-[:R]->(b)"), None));
                         }
                         2 => {
                             t_nodes.remove(&a);
                             t_rels.retain(|(x, y)| *x != a && *y != a);
-                            (format!("MATCH (n:N {{uid: {a}}}) DETACH DELETE n"), Some(false))
+                            batch.push((format!("MATCH (n:N {{uid: {a}}}) DETACH DELETE n"), Some(false)));
+                        }
+                        3 => {
+                            // a relationship created and deleted by one statement, created again by the
+                            // next, then its target deleted: the second creation is what counts
+                            if t_rels.contains(&(a, b)) || a == b {
+                                continue;
+                            }
+                            batch.push((format!("MATCH (a:N {{uid: {a}}}), (b:N {{uid: {b}}}) CREATE (a)-[r:R]->(b) DELETE r"), None));
+                            t_rels.push((a, b));
+                            batch.push((format!("MATCH (a:N {{uid: {a}}}), (b:N {{uid: {b}}}) CREATE (a)-[:R]->(b)"), None));
+                            if rng.chance(1, 2) {
+                                batch.push((format!("MATCH (n:N {{uid: {b}}}) DELETE n"), Some(true)));
+                            } else {
+                                t_nodes.remove(&b);
+                                t_rels.retain(|(x, y)| *x != b && *y != b);
+                                batch.push((format!("MATCH (n:N {{uid: {b}}}) DETACH DELETE n"), Some(false)));
+                            }
                         }
                         _ => {
                             let connected = t_rels.iter().any(|(x, y)| *x == a || *y == a);
                             if !connected {
                                 t_nodes.remove(&a);
                             }
-                            (format!("MATCH (n:N {{uid: {a}}}) DELETE n"), Some(connected))
+                            batch.push((format!("MATCH (n:N {{uid: {a}}}) DELETE n"), Some(connected)));
                         }
                     };
+                    let mut stop_script = false;
+                    for (stmt, refuse) in batch {
                     script.push(stmt.clone());
                     out.evaluations += 1;
                     out.count("statements_in_multi_statement_transactions", 1);
@@ -602,6 +622,7 @@ fn c14_case(seed: u64, k: usize, out: &mut CaseOut) -> Vec<Violation> {
                     let r = ndb_core::query::prepare(&stmt).and_then(|p| p.execute_mixed(&snap, &mut txn, &params));
                     match (r, refuse) {
                         (Ok(_), Some(true)) => {
+                            stop_script = true;
                             failed_viol = Some(Violation {
                                 signature: "C14|delete-of-connected-node-accepted|multi-statement-transaction".into(),
                                 summary: format!("inside one transaction [{}] the last statement succeeded although the node has a relationship (committed, or created earlier in the transaction)", script.join("; ")),
@@ -619,6 +640,13 @@ fn c14_case(seed: u64, k: usize, out: &mut CaseOut) -> Vec<Violation> {
                             return viols;
                         }
                         _ => {}
+                    }
+                    if stop_script {
+                        break;
+                    }
+                    }
+                    if stop_script {
+                        break;
                     }
                 }
                 history.push(format!("BEGIN; {}; COMMIT", script.join("; ")));
